@@ -121,8 +121,10 @@ class BlockPartition(object):
     def add_partition_constraints(self):
         """
         Formulate the list of orthogonality constraints induced by the partitioning.
+        The list is formulated anew at each call (at each solve), hence does not grow with the number of solves.
 
         """
+        self.list_of_constraints = list()
         for xi_decomposed in self.blocks_dict.values():
             for xj_decomposed in self.blocks_dict.values():
                 for k in range(self.d):
